@@ -782,6 +782,67 @@ module("am12", "Am12", [Fn(f"am12_{i}", ("impl", ["Af0"]), ["u64", "u64"], is_as
 for nme in ["core", "std", "dep", "impl_", "entrait_t", "unimock"]:
     single(Fn(f"n3_{nme}", ("impl", ["F0"]), ["u64", f"name={nme}:u64"], calls=["f0"]))
 
+
+# ==== pseudo-random signatures: combinations the matrices only cover pairwise ==
+# (fixed seed: the corpus stays a committed, deterministic artefact)
+import random as _random
+_rng = _random.Random(20260927)
+_PK = [k for k in MATRIX_KINDS if k not in ("hrfn", "hrdyn", "fnptr")] + ["u64"] * 12
+_ASYNC_OK = lambda k: k not in ASYNC_SKIP
+_RETS = ["u64"] * 6 + ["unit", "result", "opt", "boolr", "u32r", "tuple2", "iter", "implfp", "tracked", "explicit_unit", "resunit"]
+
+
+def _rand_params(n, is_async, fn_name, allow_destr=True):
+    params = []
+    used_names = set()
+    for i in range(n):
+        k = _rng.choice(_PK)
+        while is_async and not _ASYNC_OK(k):
+            k = _rng.choice(_PK)
+        r = _rng.random()
+        if r < 0.08 and allow_destr and k in ("pair", "arr", "wrap", "nest", "refpair"):
+            params.append(f"destr:{k}")
+        elif r < 0.14 and allow_destr:
+            params.append(f"wild:{k}")
+        elif r < 0.20 and "same" not in used_names:
+            used_names.add("same")
+            params.append(f"same:{k}")
+        elif r < 0.34:
+            nm = _rng.choice(SUSPICIOUS + [f"arg{j}" for j in range(4)] + [f"_arg{j}" for j in range(3)])
+            if nm in used_names:
+                params.append(k)
+            else:
+                used_names.add(nm)
+                params.append(f"name={nm}:{k}")
+        else:
+            params.append(k)
+    return params
+
+
+for _i in range(140):
+    _asy = _rng.random() < 0.45
+    _n = _rng.choice([0, 1, 2, 2, 3, 3, 4, 5, 6])
+    _name = f"rf{_i}"
+    _ps = _rand_params(_n, _asy, _name)
+    _ret = _rng.choice(_RETS)
+    _form = _rng.random()
+    if _form < 0.2:
+        single(Fn(_name, ("nodeps", []), _ps, opts="no_deps", ret=_ret, is_async=_asy))
+    elif _form < 0.4:
+        single(Fn(_name, ("gen", ["Af0" if _asy else "F0", "Send"]), _ps, ret=_ret, is_async=_asy, calls=["af0" if _asy else "f0"]))
+    elif _form < 0.5:
+        single(Fn(_name, ("where", ["Af0" if _asy else "F0", "'static"]), _ps, ret=_ret, is_async=_asy))
+    else:
+        single(Fn(_name, ("impl", ["Af0" if _asy else "F0"]), _ps, ret=_ret, is_async=_asy, calls=(["af0"] if _asy else ["f0"]) if _rng.random() < 0.5 else []))
+for _m in range(12):
+    _k = _rng.choice([2, 3, 4, 5, 7])
+    _fns = []
+    for _j in range(_k):
+        _asy = _rng.random() < 0.4
+        _fns.append(Fn(f"rm{_m}_{_j}", ("impl", ["Af0" if _asy else "F0"]), _rand_params(_rng.choice([0, 1, 2, 3, 4]), _asy, f"rm{_m}_{_j}"),
+                       ret=_rng.choice(_RETS), is_async=_asy, vis=_rng.choice(["pub", "pub", "pub(crate)"])))
+    module(f"rmod{_m}", f"Rmod{_m}", _fns, fillers=tuple(_rng.sample(range(_k), _rng.choice([0, 1, 2]))))
+
 N_PLAIN = METHOD_COUNTER[0]
 
 # ---- write corpus prelude -------------------------------------------------
@@ -1037,6 +1098,24 @@ trait_section("PlainSame", "self", [Fn("psame", SELF, ["u64", "same:u64"]), Fn("
 trait_section("Plain24", "self", [Fn(f"p24_{i}", SELF, ["u64", "u64"]) for i in range(24)])
 trait_section("PlainOdd", "self", [Fn(f"{nme.replace('r#', 'raw_')}_t", SELF, [f"name={nme}:u64", "u64"]) for nme in ODD_NAMES if nme not in ("a", "x1")])
 trait_section("PlainAr12", "self", [Fn("par12", SELF, ["u64"] * 12), Fn("apar12", SELF, ["u64"] * 12, is_async=True)])
+
+def _dyn_ok(p):
+    return "impl " not in KINDS[p.split(":")[-1]][0] and p.split(":")[-1] not in ("gen", "genm")
+
+
+_TRAIT_RETS = ["u64"] * 5 + ["unit", "result", "opt", "boolr", "tuple2", "tracked", "resunit"]
+for _t in range(10):
+    _k = _rng.choice([1, 2, 3, 4, 6])
+    _ms = []
+    for _j in range(_k):
+        _asy = _rng.random() < 0.4
+        _ms.append(Fn(f"rt{_t}_{_j}", SELF, _rand_params(_rng.choice([0, 1, 2, 3, 4]), _asy, f"rt{_t}_{_j}", allow_destr=False), ret=_rng.choice(_TRAIT_RETS), is_async=_asy))
+    trait_section(f"Rtrait{_t}", "self", _ms)
+for _t in range(6):
+    _k = _rng.choice([1, 2, 3, 5])
+    _ms = [Fn(f"rr{_t}_{_j}", SELF, [p for p in _rand_params(_rng.choice([0, 1, 2, 3]), False, f"rr{_t}_{_j}", allow_destr=False) if _dyn_ok(p)],
+              ret=_rng.choice(["u64", "u64", "unit", "opt", "tuple2"])) for _j in range(_k)]
+    trait_section(f"Rref{_t}", _rng.choice(["ref", "borrow"]), _ms, supers=": 'static")
 # the slot trait used by ret_refdeps (plain accessor, not recorded)
 corpus.append("""#[entrait]
 pub trait SlotRef {
@@ -1226,6 +1305,20 @@ inversion("InvDn", "InvDnImpl", "static",
 
 inversion("Inv16", "Inv16Impl", "static", [(Fn(f"i16_{i}", SELF, ["u64", "u64"]), ("any", []), []) for i in range(16)]
           + [(Fn("iar12", SELF, ["u64"] * 12), ("any", []), [])], delegate_ident="DelegateInv16")
+
+for _t in range(10):
+    _k = _rng.choice([1, 2, 3, 4, 6])
+    _ms = []
+    for _j in range(_k):
+        _asy = _rng.random() < 0.4
+        _ms.append((Fn(f"ri{_t}_{_j}", SELF, _rand_params(_rng.choice([0, 1, 2, 3, 4]), _asy, f"ri{_t}_{_j}"), ret=_rng.choice(_TRAIT_RETS), is_async=_asy),
+                    ("impl", ["Af0" if _asy else "F0"]), (["af0"] if _asy else ["f0"]) if _rng.random() < 0.5 else []))
+    inversion(f"Rinv{_t}", f"Rinv{_t}Impl", "static", _ms, delegate_ident=f"DelegateRinv{_t}", fillers=tuple(_rng.sample(range(_k), _rng.choice([0, 1]))))
+for _t in range(5):
+    _k = _rng.choice([1, 2, 3, 4])
+    _ms = [(Fn(f"rd{_t}_{_j}", SELF, [p for p in _rand_params(_rng.choice([0, 1, 2, 3]), False, f"rd{_t}_{_j}") if _dyn_ok(p)],
+               ret=_rng.choice(["u64", "u64", "unit", "opt", "tuple2"])), ("impl", ["F0"]), []) for _j in range(_k)]
+    inversion(f"Rdyn{_t}", f"Rdyn{_t}Impl", "dyn", _ms)
 # --------------------------------------------------------------------------
 # un-mock section (C11): exported mock APIs; in the default build these are
 # ordinary entraited functions exercised through Impl<T> (C01)
